@@ -1,7 +1,8 @@
 #!/venv/bin/python
 """Apply each seeded change to /repo, run the relevant checks, undo it, and record what was detected.
 
-usage: tools/seeded.py [--all-checks] [--tier quick] [name-prefix ...]
+usage: tools/seeded.py [--all-checks] [--thorough] [--only=C01,C08] [name-prefix ...]
+(--only re-runs just the listed checks, for the changes whose "breaks" mention one of them, and merges into the recorded result)
 Results: /verif/seeded/RESULTS.json (and the 'detected_by' field printed per change)."""
 import json
 import os
@@ -21,6 +22,7 @@ def sh(cmd, **kw):
 def main():
     args = [a for a in sys.argv[1:] if not a.startswith("--")]
     all_checks = "--all-checks" in sys.argv
+    only = next((a.split("=", 1)[1].split(",") for a in sys.argv[1:] if a.startswith("--only=")), None)
     tier = "thorough" if "--thorough" in sys.argv else "quick"
     assert sh("git -C /repo status --porcelain").stdout.strip() == "", "/repo is dirty"
     results_path = os.path.join(SEEDED, "RESULTS.json")
@@ -33,6 +35,11 @@ def main():
         meta_path = os.path.join(d, "meta.json")
         meta = json.load(open(meta_path)) if os.path.exists(meta_path) else {}
         checks = ALL if all_checks else meta.get("run_checks") or meta.get("breaks") or ALL
+        prev = results.get(name, {})
+        if only is not None:
+            checks = [c for c in checks if c in only]
+            if not checks:
+                continue
         r = sh(f"git -C /repo apply {d}/patch.diff")
         if r.returncode != 0:
             print(f"{name}: patch does not apply: {r.stderr.strip()[:200]}")
@@ -52,6 +59,9 @@ def main():
         finally:
             sh("git -C /repo checkout -- .")
             sh("git -C /repo clean -fdq -- cirkit")
+        if only is not None and prev.get("tier") == tier:
+            detail = {**prev.get("detail", {}), **detail}
+            detected = [c for c in (meta.get("breaks") or ALL) if c in detail and detail[c]["rc"] == 1 and detail[c]["violations"]]
         results[name] = {"breaks": meta.get("breaks"), "detected_by": detected, "detail": detail, "tier": tier}
         print(f"{name}: breaks={meta.get('breaks')} detected_by={detected} " + " ".join(f"{c}:rc{v['rc']}" for c, v in detail.items()))
         with open(results_path, "w") as f:
